@@ -1,21 +1,1 @@
-import TD.C07.Model
-
-/-!
-# C07 — helper lemmas (bit masks as div/mod)
--/
-namespace TD.C07
-
-/-- a contiguous mask: `x &&& ((2^a - 1) * 2^b)` keeps bits `b … b+a-1`. -/
-theorem and_mask (x a b : Nat) : x &&& ((2 ^ a - 1) * 2 ^ b) = (x / 2 ^ b % 2 ^ a) * 2 ^ b := by
-  apply Nat.eq_of_testBit_eq
-  intro i
-  simp only [Nat.testBit_and, Nat.testBit_mul_two_pow, Nat.testBit_two_pow_sub_one, Nat.testBit_mod_two_pow,
-    Nat.testBit_div_two_pow]
-  by_cases h : b ≤ i
-  · simp [h]
-    by_cases h2 : i - b < a
-    · simp [h2]
-    · simp [h2]
-  · simp [h]
-
-end TD.C07
+import TD.C07.Lis
